@@ -2,7 +2,7 @@
    Statements only; every proof is `exact <lemma>` of Proofs/.  K ranges over every ordered
    commutative ring (Z, Qc, R, ...), networks over every finite list of edges. *)
 From Coq Require Import List Arith.
-From Onsager Require Import Base.OrdRing Model.Net Model.Interstitial Proofs.Net_proofs Proofs.Interstitial_proofs.
+From Onsager Require Import Base.OrdRing Model.Net Model.Interstitial Model.NetMaps Proofs.Net_proofs Proofs.Interstitial_proofs Proofs.NetMaps_proofs.
 Import ListNotations.
 
 (* The transport coefficient of a network is well defined: it does not depend on which
@@ -45,6 +45,19 @@ Theorem C02_checker_sound :
          rle K (Bform N (comp k) (comp l) gk gl) (nth l (nth k hi []) (r0 K))).
 Proof. exact check_case_sound. Qed.
 
+(* The implementation does not solve Kirchhoff's equations on all sites: it solves them PROJECTED on its symmetry-adapted
+   vector basis phi_0..phi_{m-1} (FullVectorBasis), with solve or pinv.  If some corrector lies in the span of that basis
+   (completeness of the basis: property C20), then ANY field of the span satisfying the projected equations gives the
+   exact coefficient -- whichever solution of a possibly singular projected system the linear algebra returns. *)
+Theorem C02_projected_solve_exact :
+  forall (K : ordring) (N : net K) dA dB m phi xA xB xsA xsB,
+    let gA := fun x => lin m xA phi x in let gB := fun x => lin m xB phi x in
+    let gsA := fun x => lin m xsA phi x in let gsB := fun x => lin m xsB phi x in
+    weakKCL N dA gsA -> weakKCL N dB gsB ->
+    projKCL K N dA gA m phi -> projKCL K N dB gB m phi ->
+    Bform N dA dB gA gB = Bform N dA dB gsA gsB.
+Proof. exact galerkin_exact. Qed.
+
 Goal True. idtac "ASSUMPTIONS-OF C02_corrector_independent". Abort.
 Print Assumptions C02_corrector_independent.
 Goal True. idtac "ASSUMPTIONS-OF C02_bias_form". Abort.
@@ -55,3 +68,5 @@ Goal True. idtac "ASSUMPTIONS-OF C02_sitewise_kirchhoff_suffices". Abort.
 Print Assumptions C02_sitewise_kirchhoff_suffices.
 Goal True. idtac "ASSUMPTIONS-OF C02_checker_sound". Abort.
 Print Assumptions C02_checker_sound.
+Goal True. idtac "ASSUMPTIONS-OF C02_projected_solve_exact". Abort.
+Print Assumptions C02_projected_solve_exact.
